@@ -55,14 +55,14 @@ META = dict(
                 'of archive::eof/next_chunk_size/read_chunk/read_chunk_as_string/write_chunk and the limits, bit-field widths and bounds '
                 'tests of the session format are cut from the current source text, translated by cxx2v and proved equal to the model '
                 '(Link.v: chunk reader and load_data assembled from the generated leafs = the model); everything else is tied '
-                'by running the extracted model and the real archive classes (35 concrete C++ types incl. four user classes, also '
+                'by running the extracted model and the real archive classes (41 concrete C++ types incl. five user classes, also '
                 'through session_interface / cache_interface store_data/fetch_data) on the same inputs.'),
     level_note=('Trusted: Coq kernel + vm_compute; ExtrOcamlBasic extraction; the hand model of archive.cpp / archive_traits.h (tied by '
                 'correspondence on generated cases, not verified against the C++ text, except the leaf expressions named above; the regular-'
                 'expression extraction of those expressions in checks/C19.py; bit-field allocation order of struct packed); the JSON parser is '
                 'a parameter of the model (its verdicts on the chunks met are taken from the real parser, property C11); iteration order '
-                'of sets/maps is canonicalised (sorted) on both sides; std::multiset/multimap and intrusive_ptr '
-                'instantiations share the macro text with the tested ones and are not run; json numbers with more than 16 significant '
+                'of sets/maps is canonicalised (sorted) on both sides; multiset/multimap are modelled as sequences printed sorted; '
+                'json numbers with more than 16 significant '
                 'digits do not survive the writer (C11) and are excluded from the round-trip domain (hypothesis json_fix).'),
 )
 
@@ -177,7 +177,7 @@ M32 = 1 << 32
 # ------------------------------------------------------------------------------------------------
 TYPES = ['p4', 'p1', 'p8', 'p8', 's', 'v1', 'v2', 'v4', 'v8', 'Ls', 'LPp4s', 'Ss', 'Sp4', 'Msv4', 'Mp4Sp2', 'Os', 'LOLs', 'LLs',
          'Pp1p8', 'SPp4s', 'J', 'LJ', 'MsJ', 'Pp4Psv8', 'Pp8Pp12Pss', 'PsPp8PMp4sPOPp4Psv8PLPp8Pp12PssJ', 'MsPp4Psv8', 'OLp8',
-         'LMp2Os', 'Lv4', 'Os', 'Ov4', 'Os', 'LOPp2s', 's']
+         'LMp2Os', 'Lv4', 'Os', 'Ov4', 'Os', 'LOPp2s', 's', 'Bp4', 'Nsp2', 'OPp4s', 'p4', 'v16', 'Mp4Bs']
 SERIALIZABLE = [23, 24, 25, 34]      # rec2, rec3, rec1: classes derived from serializable_base (session/cache store_data)
 
 
@@ -201,9 +201,9 @@ def parse_spec(s):
             return ('s',)
         if c == 'v':
             return ('v', num())
-        if c in 'LSO':
+        if c in 'LSOB':
             return (c, go())
-        if c in 'MP':
+        if c in 'MPN':
             a = go()
             b = go()
             return (c, a, b)
@@ -259,11 +259,11 @@ def enc(t, v, e):
         e.chunk(v, 'podvec')
     elif k == 'J':
         e.chunk(v[1], 'json')
-    elif k in 'LS':
+    elif k in 'LSB':
         e.chunk(struct.pack('<Q', len(v)), 'count')
         for x in v:
             enc(t[1], x, e)
-    elif k == 'M':
+    elif k in 'MN':
         e.chunk(struct.pack('<Q', len(v)), 'count')
         for a, b in v:
             enc(t[1], a, e)
@@ -296,9 +296,9 @@ def min_len(t, v):
         return 4 + len(v)
     if k == 'J':
         return 4
-    if k in 'LS':
+    if k in 'LSB':
         return 12 + sum(min_len(t[1], x) for x in v)
-    if k == 'M':
+    if k in 'MN':
         return 12 + sum(min_len(t[1], a) + min_len(t[2], b) for a, b in v)
     if k == 'P':
         return min_len(t[1], v[0]) + min_len(t[2], v[1])
@@ -313,9 +313,9 @@ def text(t, v):
         return hexs(v)
     if k == 'J':
         return 'j' + hexs(v[1])
-    if k in 'LS':
+    if k in 'LSB':
         return '[' + ','.join(text(t[1], x) for x in v) + ']'
-    if k == 'M':
+    if k in 'MN':
         return '[' + ','.join('(' + text(t[1], a) + ',' + text(t[2], b) + ')' for a, b in v) + ']'
     if k == 'P':
         return '(' + text(t[1], v[0]) + ',' + text(t[2], v[1]) + ')'
@@ -360,13 +360,13 @@ def parse_text(t, s):
         if k == 'J':
             expect('j')
             return ('j', tok())
-        if k in 'LSM':
+        if k in 'LSMBN':
             expect('[')
             items = []
             if peek() == ']':
                 pos[0] += 1
                 return items
-            et = t[1] if k != 'M' else ('P', t[1], t[2])
+            et = t[1] if k not in 'MN' else ('P', t[1], t[2])
             while True:
                 items.append(go(et))
                 if peek() == ',':
@@ -519,6 +519,14 @@ def gen_value(t, rng, depth=0):
             a = gen_value(t[1], rng, depth + 1)
             d.setdefault(ckey(t[1], a), (a, gen_value(t[2], rng, depth + 1)))
         return [d[key] for key in sorted(d)]
+    if k == 'B':
+        xs = [gen_value(t[1], rng, depth + 1) for _ in range(rng.choice([0, 0, 1, 2, 3, 4, 6] if depth < 2 else [0, 1, 2]))]
+        xs += [rng.choice(xs) for _ in range(rng.choice([0, 0, 1, 2]))] if xs else []
+        return sorted(xs, key=lambda x: ckey(t[1], x))
+    if k == 'N':
+        ps = [(gen_value(t[1], rng, depth + 1), gen_value(t[2], rng, depth + 1)) for _ in range(rng.choice([0, 0, 1, 2, 3, 4]))]
+        ps += [(rng.choice(ps)[0], gen_value(t[2], rng, depth + 1)) for _ in range(rng.choice([0, 0, 1, 2]))] if ps else []
+        return sorted(ps, key=lambda p: ckey(t[1], p[0]))
     if k == 'P':
         return (gen_value(t[1], rng, depth), gen_value(t[2], rng, depth))
     if k == 'O':
@@ -537,7 +545,7 @@ def min_value(t):
         return b''
     if k == 'J':
         return ('j', b'null')
-    if k in 'LSM':
+    if k in 'LSMBN':
         return []
     if k == 'P':
         return (min_value(t[1]), min_value(t[2]))
@@ -557,9 +565,9 @@ def one_each(t):
         return bytes(t[1])
     if k == 'J':
         return ('j', b'[]')
-    if k in 'LS':
+    if k in 'LSB':
         return [one_each(t[1])]
-    if k == 'M':
+    if k in 'MN':
         return [(one_each(t[1]), one_each(t[2]))]
     if k == 'P':
         return (one_each(t[1]), one_each(t[2]))
@@ -785,6 +793,14 @@ def gen_cases(ctx):
             for hi in (0, 1 << 8, 1 << 16, 1 << 24, 0xff << 24):
                 for n in range(0, 10):
                     add('ld %s %s' % (pre, hexs(struct.pack('<I', hv | hi) + bytes(range(0x61, 0x61 + n)))))
+    # json members: a complete json value followed by something else must be refused (the whole chunk is one value)
+    for tid in (20, 21, 22):
+        t = spec_of(TYPES[tid])
+        for junk in (b' x', b' 1', b']', b'}', b',', b'\x00', b' /', b'"', b' null', b'\n\n1'):
+            for base in (b'null', b'1', b'"a"', b'[]', b'{"a":1}', b'[1,2]'):
+                v = ('j', base + junk)
+                v = v if tid == 20 else [v] if tid == 21 else [(b'k', v)]
+                add('ld %d %s %s' % (tid, TYPES[tid], hexs(encode(t, v)[0])))
     gen_session_cases(ctx, add)
     # large objects (chunk sizes beyond 16 bits, many elements)
     big = [(4, rbytes(rng, 70000)), (8, rbytes(rng, 8 * 9000)), (9, [rbytes(rng, rng.randrange(0, 40)) for _ in range(ctx.scale(150, 500))]),
@@ -1015,9 +1031,9 @@ def canon(t, v):
         return v
     if k == 'L':
         return [canon(t[1], x) for x in v]
-    if k == 'S':
+    if k in 'SB':
         return sorted((canon(t[1], x) for x in v), key=repr)
-    if k == 'M':
+    if k in 'MN':
         return sorted(((canon(t[1], a), canon(t[2], b)) for a, b in v), key=repr)
     if k == 'P':
         return (canon(t[1], v[0]), canon(t[2], v[1]))
@@ -1109,7 +1125,7 @@ def run(ctx):
         'Coq 8.16.1 kernel, vm_compute (examples only)',
         'extraction: ExtrOcamlBasic only, OCaml 4.13.1',
         'hand model coq/C19/Defs.v of src/archive.cpp and cppcms/archive_traits.h (tied by correspondence)',
-        'harness/C19_archive.cpp (instantiates the real templates at 35 C++ types; `#define private public` only to read archive::ptr_), '
+        'harness/C19_archive.cpp (instantiates the real templates at 41 C++ types; `#define private public` only to read archive::ptr_), '
         'ocaml/C19_driver.ml, checks/C19.py (independent python encoder of the wire format, generators, oracle)',
         'the JSON parser/writer is external to the model: its verdict on every json chunk met is taken from the real parser (C11)',
         'g++ -fsanitize=address for harness + src/archive.cpp (both tiers); -fsanitize=address,undefined for the whole library (thorough tier)']
@@ -1155,8 +1171,8 @@ def run(ctx):
         cases = strip_jtab(vlib.corpus_cases('C19')) + gen_cases(ctx)
     cases, nj = with_json_verdicts(cases, wrap + [exe])
     ctx.coverage['rule'] = (
-        'cases: op, type id, type spec, input (hex archive or value text), json verdict table. For each of 35 C++ types (PODs, string, '
-        'POD vectors, vector/list/set/map/pair nests, shared_ptr/copy_ptr/hold_ptr/clone_ptr/unique_ptr, json::value, 4 user classes): the minimal value, the '
+        'cases: op, type id, type spec, input (hex archive or value text), json verdict table. For each of 41 C++ types (PODs, string, '
+        'POD vectors, vector/list/set/map/pair nests, shared_ptr/copy_ptr/hold_ptr/clone_ptr/unique_ptr/intrusive_ptr, multiset/multimap, wchar_t, long double, json::value, 5 user classes): the minimal value, the '
         'one-element value and seeded random values are saved and loaded back (rt: fresh and used target, operator<< and operator&, '
         'copy of the archive; sc: session_interface and cache_interface store_data/fetch_data); of each saved archive EVERY truncation '
         '(tr; sampled around chunk boundaries above %d bytes), EVERY 4-byte length field replaced by len+-1..4, remaining+-1..4, 0, 2^31, '
